@@ -117,7 +117,8 @@ PARTIALS = ["HH:MM", "HH:MM:SS", "HHam", "Mon", "Month YYYY", "YYYY",
 
 def gen_fill(rng):
     return ["fill", rng.choice(PARTIALS), R_fields(rng), gen_default(rng),
-            rng.choice(["explicit", "explicit", "explicit", "clock"])]
+            rng.choice(["explicit", "explicit", "explicit", "clock",
+                        "aware"])]
 
 
 def R_fields(rng):
@@ -234,6 +235,9 @@ class _Fixed(datetime.tzinfo):
 
     def __repr__(self):
         return "_Fixed(%r, %r)" % (self._n, self._s)
+
+
+_DEFAULT_ZONE = _Fixed("DFLT", 5400)
 
 
 class Env(object):
@@ -440,6 +444,11 @@ def do_fill(env, ctx, op):
         default = datetime.datetime(lt.tm_year, lt.tm_mon, lt.tm_mday)
         kw = {}
         ctx.probe("fill.default_from_clock")
+    elif dkind == "aware":
+        # an aware default: its zone is one more field the text leaves alone
+        default = datetime.datetime(*dflt, tzinfo=_DEFAULT_ZONE)
+        kw = dict(default=default)
+        ctx.probe("fill.aware_default")
     else:
         default = datetime.datetime(*dflt)
         kw = dict(default=default)
@@ -469,7 +478,8 @@ def do_fill(env, ctx, op):
         ctx.probe("fill.day_clipped")
     if moved:
         ctx.probe("fill.weekday_moved")
-    if got != want or got.tzinfo is not None:
+    if got.replace(tzinfo=None) != want.replace(tzinfo=None) or \
+            got.tzinfo is not default.tzinfo:
         ctx.violation("C15.fill_wrong",
                       dict(text=text, default=default.isoformat(),
                            got=got.isoformat(), want=want.isoformat(),
